@@ -104,3 +104,60 @@ Definition leak_witness : dtree := DN [(0, 10)] [0] [DN [(0, 11)] [0] []].
 Theorem lower_leaky_refuted :
   prepare_resolve_leaky leak_witness = [Some 11; Some 11] /\ innermost [] leak_witness = [Some 10; Some 11].
 Proof. split; vm_compute; reflexivity. Qed.
+
+(* ---------------------------------------------------------------------------------------------------------------
+   prepare leaves the user's fragments as it found them *)
+Lemma existsb_eqb_In n ns : existsb (Nat.eqb n) ns = true <-> In n ns.
+Proof.
+  rewrite existsb_exists. split.
+  - intros [x [Hx E]]. apply Nat.eqb_eq in E. subst. exact Hx.
+  - intros H. exists n. split; [exact H|apply Nat.eqb_refl].
+Qed.
+
+Lemma dlookup_some_in own k : (exists v, In (k, v) own) -> dlookup own k <> None.
+Proof.
+  intros [v Hin]. induction own as [|[k' v'] r IH]; [destruct Hin|].
+  cbn [dlookup]. destruct (Nat.eqb k' k) eqn:E; [discriminate|].
+  destruct Hin as [H|H]; [inversion H; subst; rewrite Nat.eqb_refl in E; discriminate|exact (IH H)].
+Qed.
+
+Lemma filter_all {A} (f : A -> bool) l : (forall x, In x l -> f x = true) -> filter f l = l.
+Proof.
+  induction l as [|x r IH]; intros H; cbn [filter]; [reflexivity|].
+  rewrite (H x (or_introl eq_refl)). f_equal. apply IH. intros y Hy. apply H. right. exact Hy.
+Qed.
+
+Lemma filter_none {A} (f : A -> bool) l : (forall x, In x l -> f x = false) -> filter f l = [].
+Proof.
+  induction l as [|x r IH]; intros H; cbn [filter]; [reflexivity|].
+  rewrite (H x (or_introl eq_refl)). apply IH. intros y Hy. apply H. right. exact Hy.
+Qed.
+
+(* deleting exactly the recorded names gives back the fragment's own table, whatever the parent held *)
+Theorem after_prepare_restores : forall own parent, after_prepare own parent = own.
+Proof.
+  intros own parent. unfold after_prepare, del_names, dmerge, added.
+  set (g := fun kv : nat * nat => match dlookup own (fst kv) with Some _ => false | None => true end).
+  rewrite filter_app.
+  rewrite (filter_all _ own), (filter_none _ (filter g parent)); [apply app_nil_r| |].
+  - intros [k v] Hin. apply filter_In in Hin. destruct Hin as [Hin Hg].
+    apply negb_false_iff. apply existsb_eqb_In. cbn [fst].
+    apply in_map_iff. exists (k, v). split; [reflexivity|]. apply filter_In. split; assumption.
+  - intros [k v] Hin. apply negb_true_iff. cbn [fst].
+    destruct (existsb (Nat.eqb k) (map fst (filter g parent))) eqn:E; [|reflexivity].
+    apply existsb_eqb_In in E. apply in_map_iff in E. destruct E as [[k' v'] [Hk Hf]]. cbn [fst] in Hk. subst k'.
+    apply filter_In in Hf. destruct Hf as [_ Hg]. unfold g in Hg. cbn [fst] in Hg.
+    exfalso. apply (dlookup_some_in own k); [exists v; exact Hin|].
+    destruct (dlookup own k); [discriminate|reflexivity].
+Qed.
+
+(* hence a second preparation resolves every name exactly as a first one would under the new parent *)
+Theorem second_prepare_like_first : forall own parent1 parent2 n,
+  dlookup (second_table own parent1 parent2) n = dlookup (dmerge own parent2) n.
+Proof. intros. unfold second_table. rewrite after_prepare_restores. reflexivity. Qed.
+
+(* before the repair: an Instance using ClockSignal of an auto-created domain (name 0): the first conversion creates
+   the domain as object 7, the second as object 8, but the instance still holds 7 *)
+Theorem second_prepare_leaky_refuted :
+  dlookup (second_table_leaky [] [(0, 7)] [(0, 8)]) 0 = Some 7 /\ dlookup (dmerge [] [(0, 8)]) 0 = Some 8.
+Proof. split; vm_compute; reflexivity. Qed.
